@@ -275,5 +275,73 @@ theorem threefold_eq (K : Keys) (b₀ : Board) (ms : List Move)
   simp only [List.map_cons] at this ⊢
   rw [this]
 
+/-! ### executable checkers for concrete games (used by the non-vacuity examples; they avoid the
+    enumeration of all legal moves wherever no en-passant target is involved) -/
+
+def legalFromB : List Pos → List Mv → Bool
+  | _, [] => true
+  | [], _ :: _ => false
+  | p :: h, mv :: ms => legal p mv && legalFromB (applyFast p mv :: p :: h) ms
+
+theorem legalFromB_sound : ∀ h ms, legalFromB h ms = true → legalFrom h ms
+  | _, [], _ => trivial
+  | [], _ :: _, h => by simp [legalFromB] at h
+  | p :: h, mv :: ms, hb => by
+    simp only [legalFromB, Bool.and_eq_true] at hb
+    refine ⟨hb.1, ?_⟩
+    rw [apply_eq_fast]
+    exact legalFromB_sound _ _ hb.2
+
+def absStepOK (K : Keys) (b : Board) (m : Move) : Bool :=
+  decide ((b.makeMove K m).1.abs = applyFast b.abs (decodeMove m))
+
+theorem absStepOK_sound {K : Keys} {b : Board} {m : Move} (h : absStepOK K b m = true) :
+    (b.makeMove K m).1.abs = apply b.abs (decodeMove m) := by
+  rw [apply_eq_fast]; exact of_decide_eq_true h
+
+def absStepsB (K : Keys) : Board → List Move → Bool
+  | _, [] => true
+  | b, m :: ms => absStepOK K b m && absStepsB K (b.makeMove K m).1 ms
+
+theorem absStepsB_sound (K : Keys) (ms : List Move) : ∀ b, absStepsB K b ms = true → AbsSteps K b ms := by
+  induction ms with
+  | nil => intro b _; trivial
+  | cons m ms ih =>
+    intro b hb
+    rw [absStepsB, Bool.and_eq_true] at hb
+    exact ⟨absStepOK_sound hb.1, ih _ hb.2⟩
+
+def faithfulB (hist : List (Pos × BB)) : Bool :=
+  hist.all fun x => hist.all fun y => decide (x.2 = y.2) == sameFast x.1 y.1
+
+theorem faithfulB_sound {hist : List (Pos × BB)} (h : faithfulB hist = true) : HashFaithful hist := by
+  intro x hx y hy
+  simp only [faithfulB, List.all_eq_true] at h
+  have e : decide (x.2 = y.2) = sameFast x.1 y.1 := by simpa using h x hx y hy
+  rw [same_eq_fast, ← e]; simp
+
+/-- `positions` / `occurrences` in the cheap forms. -/
+def stepHistFast : List Pos → Mv → List Pos
+  | [], _ => []
+  | p :: h, mv => applyFast p mv :: p :: h
+
+def positionsFast (start : Pos) (ms : List Mv) : List Pos := ms.foldl stepHistFast [start]
+
+def occFast (p : Pos) (hist : List Pos) : Nat := (hist.filter (sameFast p)).length
+
+theorem positions_eq_fast (start : Pos) (ms : List Mv) : positions start ms = positionsFast start ms := by
+  have : stepHist = stepHistFast := by
+    funext h mv
+    cases h with
+    | nil => rfl
+    | cons p t => simp only [stepHist, stepHistFast, apply_eq_fast]
+  unfold positions positionsFast
+  rw [this]
+
+theorem occurrences_eq_fast (p : Pos) (hist : List Pos) : occurrences p hist = occFast p hist := by
+  have : sameForRepetition p = sameFast p := funext (same_eq_fast p)
+  unfold occurrences occFast
+  rw [this]
+
 end Rep
 end ChessVerif
